@@ -103,10 +103,18 @@ macro_rules! qelem_int {
             const NAME: &'static str = $name;
             const SIGNED_INT: bool = $signed;
             fn make(v: i64, bexp: i64) -> Self {
+                // two-scale mode (bexp = 1000 + E): v = g * 2^22 + (c + 2^21) stands for g * 2^E + c - values of very
+                // different magnitude in one lane, with an order-preserving projection that is linear on each group
+                if bexp >= 1000 { let e = bexp - 1000; let (g, c) = ((v >> 22) as i128, ((v & 0x3f_ffff) - (1 << 21)) as i128); return (g * (1i128 << e) + c) as $t; }
                 let base: i128 = if bexp < 0 { 0 } else { 1i128 << bexp };
                 (base + v as i128) as $t
             }
             fn scaled(&self, bexp: i64) -> Option<i64> {
+                if bexp >= 1000 {
+                    let e = bexp - 1000; let x = *self as i128;
+                    let g = (x + (1i128 << (e - 1))) >> e; let c = x - g * (1i128 << e);
+                    return if (0..64).contains(&g) && c.abs() < (1 << 21) { Some(((g << 22) + c + (1 << 21)) as i64) } else { None };
+                }
                 let base: i128 = if bexp < 0 { 0 } else { 1i128 << bexp };
                 let d = (*self as i128) - base;
                 if d.abs() < (1 << 29) { Some(d as i64) } else { None }
@@ -587,6 +595,18 @@ pub fn gen(seed: u64, count: usize, tier: &str, params: &Params) -> Vec<Value> {
                 if rng.chance(1, 3) { let d = qs[0].clone(); qs.push(d); }
                 cases.push(json!({"ev": "quantile", "ty": ty, "strat": strat, "api": *rng.pick(&["1d_bulk", "axis_bulk"]), "lay": Lay::plain(&[n], false).to_json(), "axis": 0,
                                   "data": data, "bexp": -1, "qs": qs, "pv": [], "fb": fb, "pair": pair}));
+            }
+            "quantile" if rng.chance(1, 12) => {
+                // 64-bit lanes mixing magnitudes (values near 0 and near 2^62): Midpoint between neighbours more than 2^53 apart is
+                // exactly representable and must be exact (two-scale projection, see QElem::make)
+                let ty = *rng.pick(&["i64", "u64"]);
+                let strat = *rng.pick(&["midpoint", "midpoint", "lower", "higher", "nearest"]);
+                let n = rng.range(2, 8) as usize;
+                let data: Vec<i64> = (0..n).map(|_| { let g = if rng.chance(1, 2) { 0i64 } else { 2 }; (g << 22) + rng.range(-1000, 1000) + (1 << 21) }).collect();
+                let nq = rng.range(1, 4) as usize;
+                let qs: Vec<Value> = (0..nq).map(|_| random_q(&mut rng, n)).collect();
+                cases.push(json!({"ev": "quantile", "ty": ty, "strat": strat, "api": *rng.pick(&["1d_bulk", "axis_bulk"]), "lay": Lay::plain(&[n], false).to_json(), "axis": 0,
+                                  "data": data, "bexp": 1061, "qs": qs, "pv": [], "fb": fb, "pair": pair}));
             }
             "quantile" if rng.chance(1, 6) => {
                 // interpolation between equal or close neighbours under many non-dyadic q's: the result must stay inside [lower, higher]
